@@ -50,6 +50,11 @@ def dep_isnone(run, F):
     run.rule('CMP.table', N.RULES['CMP.table'])
     nc = N.check_comparators(run, F)
     run.floor('CMP.table', 'comparator bodies', nc, 2)
+    # ... and the NaT primitives the IsNone impls of the time types delegate to (is_nat / is_not_nat /
+    # nat of DateTime, Time, TimeDelta): the sentinel test itself, not a calendar-validity test
+    if F.config == 'base':
+        import pinned
+        pinned.check(run, F, 'time_prims')
 
 
 def dep_accessors(run, F):
